@@ -34,6 +34,7 @@ class Rec:
     def __init__(self):
         self.c = collections.Counter()          # evaluations, nontrivial, states, transitions, traces, ...
         self.classes = collections.Counter()    # per-class counts ("window:nested", ...)
+        self.times = collections.Counter()      # wall ms per leg (not part of the digest)
         self.outcomes = set()                   # digests of distinct observed outcomes (bounded)
         self.mismatches = []                    # dicts: order, clause, case, detail, finding
         self.mcount = collections.Counter()     # (clause, finding) -> count
@@ -94,6 +95,7 @@ class Rec:
     def merge(self, other: "Rec"):
         self.c.update(other.c)
         self.classes.update(other.classes)
+        self.times.update(other.times)
         if len(self.outcomes) < 20000:
             self.outcomes |= other.outcomes
         self.mismatches.extend(other.mismatches)
